@@ -13,7 +13,7 @@ def verdict(it, cert):
 
 
 def run(out, explore=0):
-    L.standard_run(out, "C01", explore or 150, want=("c05", "c01"), verdict=verdict, subsets=True)
+    L.standard_run(out, "C01", explore or 150, want=("c05", "c01"), verdict=verdict, subsets=True, extra_pools=(("X", 40),))
 
 
 def replay(out, rp):
